@@ -75,6 +75,12 @@ func (s *C15Script) Source() string {
 			ls = append(ls, asg("acc2")+"0", "for i := 0; i < "+fmt.Sprint(st.C)+"; i++ {", "	acc2 += i", "}")
 		case "ifblk":
 			ls = append(ls, asg("blk")+"0", "if tmp := ini; tmp != 0 {", "	blk = tmp + "+fmt.Sprint(st.C), "}")
+		case "shadow":
+			// a block-scoped variable with the name of an input: the input itself must stay as it is
+			ls = append(ls, asg("shw")+"0", "if shw == 0 {", "	inx := "+fmt.Sprint(st.C), "	shw = inx", "}")
+		case "fshadow":
+			// a function parameter with the name of an input
+			ls = append(ls, asg("sf")+"func(ins) { return ins + \"z\" }", asg("gsf")+"sf(\""+st.S+"\")")
 		case "tick":
 			ls = append(ls, "tick("+fmt.Sprint(st.C)+")")
 		case "decl":
@@ -120,6 +126,12 @@ func (g *c15g) script() C15Script {
 			s.Stmts = append(s.Stmts, C15Stmt{K: "loop", C: int64(g.r.Range(0, 40))})
 		case x == 11:
 			s.Stmts = append(s.Stmts, C15Stmt{K: "tick", C: g.u()})
+		case x == 12 && g.r.Chance(1, 3):
+			if g.r.Chance(1, 2) {
+				s.Stmts = append(s.Stmts, C15Stmt{K: "shadow", C: g.u()})
+			} else {
+				s.Stmts = append(s.Stmts, C15Stmt{K: "fshadow", S: fmt.Sprintf("q%d", g.u())})
+			}
 		case x == 12:
 			if g.r.Chance(1, 2) {
 				s.Stmts = append(s.Stmts, C15Stmt{K: "loopi", C: int64(g.r.Range(0, 12))})
@@ -208,12 +220,12 @@ func (g *c15g) setOp(obj int) plan.Op {
 	case x < 8:
 		return plan.Op{Kind: plan.OpSet, Obj: obj, Name: "inx", Val: vp(g.value(0))}
 	case x < 9:
-		return plan.Op{Kind: plan.OpSet, Obj: obj, Name: []string{"cst", "gx", "late", "acc", "acc2", "blk", "i", "format"}[g.r.Intn(8)], Val: vp(g.value(0))}
+		return plan.Op{Kind: plan.OpSet, Obj: obj, Name: []string{"cst", "gx", "late", "acc", "acc2", "blk", "i", "format", "x03", "x16", "shw"}[g.r.Intn(11)], Val: vp(g.value(0))}
 	}
 	return plan.Op{Kind: plan.OpSet, Obj: obj, Name: "nosuch", Val: vp(plan.Int(g.u()))}
 }
 
-var c15Names = []string{"format", "ini", "ins", "inx", "cst", "gx", "gi", "gs", "arr", "n", "m", "acc", "acc2", "blk", "i", "tmp", "late", "nf", "extra", "nosuch", "tick"}
+var c15Names = []string{"x00", "x07", "x08", "x15", "x16", "x17", "shw", "gsf", "sf", "format", "ini", "ins", "inx", "cst", "gx", "gi", "gs", "arr", "n", "m", "acc", "acc2", "blk", "i", "tmp", "late", "nf", "extra", "nosuch", "tick"}
 
 func (g *c15g) readOp(obj int) plan.Op {
 	switch g.r.Intn(5) {
@@ -270,6 +282,12 @@ func genC15(r *plan.Rng) *plan.Plan {
 		}
 		if r.Chance(1, 3) {
 			ops = append(ops, plan.Op{Kind: plan.OpAdd, Script: si, Name: "extra", Val: vp(g.value(0))})
+		}
+		if r.Chance(1, 5) {
+			// many variables: more names than any small fixed table
+			for k := 0; k < 18; k++ {
+				ops = append(ops, plan.Op{Kind: plan.OpAdd, Script: si, Name: fmt.Sprintf("x%02d", k), Val: vp(plan.Int(g.u()))})
+			}
 		}
 		if r.Chance(1, 4) {
 			// a host variable that happens to be named like a builtin function
